@@ -14,7 +14,7 @@ MUTS = {
     "M2-port-8443-kept": [(FP, "    # Dropping port\n    port = None\n", "    # Dropping port\n    if port != 8443:\n        port = None\n")],
     "M3-lang-not-stripped-under-org": [(FP, 'if hostname.count(".") > 1:', 'if hostname.count(".") > 1 and not hostname.endswith(".org"):')],
     "M3b-lang-stripped-with-one-label-left": [(FP, 'if hostname.count(".") > 1:', 'if hostname.count(".") > 0:')],
-    "M4-xx-yy-country-half-unchecked": [(FP, "                    lang.upper() in ISO_3166_1_COUNTRIES_ALPHA_2\n                    and country.upper() in ISO_3166_1_COUNTRIES_ALPHA_2\n", "                    lang.upper() in ISO_3166_1_COUNTRIES_ALPHA_2\n")],
+    "M4-xx-accepted-as-country-half": [(FP, "                    and country.upper() in ISO_3166_1_COUNTRIES_ALPHA_2\n", "                    and (country.upper() in ISO_3166_1_COUNTRIES_ALPHA_2 or country == \"xx\")\n")],
     "M5-zz-taken-for-a-code": [(FP, "            if subdomain.upper() in ISO_3166_1_COUNTRIES_ALPHA_2:\n", "            if subdomain.upper() in ISO_3166_1_COUNTRIES_ALPHA_2 or subdomain == \"zz\":\n")],
     "M6-empty-hl-kept": [(FP, "    return key not in LANG_QUERY_KEYS\n", "    return key not in LANG_QUERY_KEYS or (key == \"hl\" and _ == \"\")\n")],
     "M7-per-domain-filter-preempts-lang-filter": [(NU, "    if domain_filter is not None and domain_filter(key, value):\n        return True\n", "    if domain_filter is not None:\n        return domain_filter(key, value)\n")],
